@@ -140,6 +140,38 @@ pub fn families() -> Vec<Family> {
     v.push(fam("mul_rounded/deep".into(), each(&|w| Op::MulRounded { a: deep(w), b: (1, 0), n: 0, form: 0 })));
     v.push(fam("div_rounded/deep".into(), each(&|w| Op::DivRounded { a: deep(w), b: (1, 0), n: 0, form: 0 })));
     v.push(fam("display/deep".into(), each(&|w| Op::Fmt { a: deep(w), var: 0, w: 0, p: 0, pauses: vec![], err_at: 0, reent: false })));
+    // more shapes of the same w/10: long shifts, coefficients beyond 64 bits,
+    // the dividend-shifted branch of `/`, divisors that are no power of ten
+    v.push(fam("round/deep19".into(), each(&|w| Op::Round { a: (w * 10i128.pow(18), 18), n: -1 })));
+    v.push(fam("round/deep36".into(), each(&|w| Op::Round { a: (w * 10i128.pow(35), 18), n: -18 })));
+    v.push(fam("checked_round/deep19".into(), each(&|w| Op::CheckedRound { a: (w * 10i128.pow(18), 18), n: -1 })));
+    v.push(fam("checked_round/deep36".into(), each(&|w| Op::CheckedRound { a: (w * 10i128.pow(35), 18), n: -18 })));
+    let big = |w: i128| (wide(w, big30), 1u8);
+    v.push(fam("round/big".into(), each(&|w| Op::Round { a: big(w), n: 0 })));
+    v.push(fam("checked_round/big".into(), each(&|w| Op::CheckedRound { a: big(w), n: 0 })));
+    v.push(fam("quantize/big".into(), each(&|w| Op::Quantize { a: big(w), q: (1, 0), form: 0 })));
+    v.push(fam("mul_rounded/big".into(), each(&|w| Op::MulRounded { a: big(w), b: (1, 0), n: 0, form: 0 })));
+    v.push(fam("div_rounded/big".into(), each(&|w| Op::DivRounded { a: big(w), b: (1, 0), n: 0, form: 0 })));
+    v.push(fam("display/big".into(), each(&|w| Op::Fmt { a: big(w), var: 0, w: 0, p: 0, pauses: vec![], err_at: 0, reent: false })));
+    for f in 0..5u8 {
+        v.push(fam(format!("div/shifted/form{}", f), each(&|w| Op::Div { a: (w, 0), b: (10i128.pow(19), 0), form: f })));
+        v.push(fam(format!("div/npot/form{}", f), each(&|w| Op::Div { a: (2 * w, 18), b: (20, 0), form: f })));
+        v.push(fam(format!("mul/deep/form{}", f), each(&|w| Op::Mul { a: (w * 10i128.pow(16), 18), b: (1, 17), form: f })));
+    }
+    for f in 0..4u8 {
+        v.push(fam(format!("checked_div/shifted/form{}", f), each(&|w| Op::CheckedDiv { a: (w, 0), b: (10i128.pow(19), 0), form: f })));
+        v.push(fam(format!("checked_div/npot/form{}", f), each(&|w| Op::CheckedDiv { a: (2 * w, 18), b: (20, 0), form: f })));
+        v.push(fam(format!("mul_rounded/deep/n=3/form{}", f), each(&|w| Op::MulRounded { a: (w * 10i128.pow(10), 12), b: (1, 2), n: 3, form: f })));
+        v.push(fam(format!("div_rounded/npot/equal/form{}", f), each(&|w| Op::DivRounded { a: (2 * w, 0), b: (20, 0), n: 0, form: f })));
+        v.push(fam(format!("div_rounded/npot/fracdiv/form{}", f), each(&|w| Op::DivRounded { a: (2 * w, 1), b: (20, 1), n: 0, form: f })));
+        v.push(fam(format!("div_rounded/npot/less/form{}", f), each(&|w| Op::DivRounded { a: (2 * w, 0), b: (2000, 0), n: 2, form: f })));
+        v.push(fam(format!("div_rounded/npot/greater/form{}", f), each(&|w| Op::DivRounded { a: (2 * w, 1), b: (2, 0), n: 0, form: f })));
+    }
+    for ty in INT_TYS {
+        let i20 = Int { ty, v: 20 };
+        v.push(fam(format!("div_di/npot/{}", ty.name()), each(&|w| Op::DivDI { a: (2 * w, 18), i: i20, form: 0 })));
+        v.push(fam(format!("div_rounded_di/npot/{}", ty.name()), each(&|w| Op::DivRoundedDI { a: (2 * w, 0), i: i20, n: 0, form: 0 })));
+    }
     // values below the rounding quantum
     for (class, cname, ws, t) in [(SUB, "sub", W_SUB, 1u8), (TINY, "tiny", W_TINY, 3u8)] {
         let mut push = |name: String, f: &dyn Fn(i128) -> Op| {
